@@ -129,7 +129,8 @@ func (g *gettyClientHandler) OnCron(session getty.Session) {
 
 func (g *gettyClientHandler) transferHeartBeat(session getty.Session, msg message.HeartBeatMessage) error {
 	rpcMessage := message.RpcMessage{
-		ID:         int32(g.idGenerator.Inc()),
+		// one id sequence per client: a heart beat must not reuse the id of a pending request
+		ID:         int32(GetGettyRemotingClient().idGenerator.Inc()),
 		Type:       message.GettyRequestTypeHeartbeatRequest,
 		Codec:      byte(codec.CodecTypeSeata),
 		Compressor: 0,
